@@ -1,1 +1,569 @@
+/-
+C17 — spectral synthesis and estimation conserve energy.
+`Spectral.ampAt`, `Spectral.synth`, `Spectral.pick` are the code-shaped generic-scalar models; here at ℝ.
+-/
+import Mathlib.Tactic.Ring
+import Mathlib.Tactic.Linarith
+import Mathlib.Tactic.Positivity
+import Mathlib.Tactic.FieldSimp
+import Mathlib.Tactic.LinearCombination
+import Mathlib.Tactic.NormNum
+import Mathlib.Tactic.Push
+import Mathlib.Algebra.BigOperators.Group.List.Basic
+import Mathlib.Algebra.Order.BigOperators.Group.List
+import Mathlib.Algebra.BigOperators.Intervals
+import Mathlib.Algebra.Field.GeomSum
+import Mathlib.Analysis.SpecialFunctions.Trigonometric.Basic
+import Mathlib.Analysis.SpecialFunctions.Complex.Log
+import Mathlib.Analysis.Complex.Trigonometric
+import Mathlib.Analysis.Complex.Norm
+import FFVerif.Lemmas.RealScalar
 import FFVerif.Model.Spectral
+namespace FF
+open Finset
+
+/-! ## 1–3: the synthesiser is a finite sine series at the times `j / fs` -/
+
+theorem spectral_zero : (Spectral.zero : ℝ) = 0 := by simp [Spectral.zero]
+theorem spectral_two : (Spectral.two : ℝ) = 2 := by simp [Spectral.two]
+
+/-- the accumulation loop is the sum of the component sinusoids -/
+theorem ampAt_eq_sum (comps : List (ℝ × ℝ × ℝ)) (bw t : ℝ) :
+    Spectral.ampAt comps bw t =
+      (comps.map (fun c => Real.sqrt (2 * c.2.1 * bw) * Real.sin (2 * Real.pi * c.1 * t + c.2.2))).sum := by
+  unfold Spectral.ampAt
+  simp only [spectral_zero, spectral_two, sqrt_real, sin_real, pi_real]
+  have : ∀ (l : List (ℝ × ℝ × ℝ)) (acc : ℝ),
+      l.foldl (fun acc c => acc + Real.sqrt (2 * c.2.1 * bw) *
+        Real.sin (2 * Real.pi * c.1 * t + c.2.2)) acc =
+      acc + (l.map (fun c => Real.sqrt (2 * c.2.1 * bw) *
+        Real.sin (2 * Real.pi * c.1 * t + c.2.2))).sum := by
+    intro l; induction l with
+    | nil => intro acc; simp
+    | cons x l ih =>
+      intro acc
+      simp only [List.foldl_cons, List.map_cons, List.sum_cons, ih]
+      ring
+  rw [this]; simp
+
+theorem C17_length (fs bw : ℝ) (next : ℕ) (comps : List (ℝ × ℝ × ℝ)) (js : List ℝ) :
+    (Spectral.synth fs bw next comps js).length = js.length := by
+  simp [Spectral.synth]
+
+/-- the `k`-th sample is the series of the picked components at the time `js[k] / fs` -/
+theorem C17_entry (fs bw : ℝ) (next : ℕ) (comps : List (ℝ × ℝ × ℝ)) (js : List ℝ) (k : ℕ)
+    (hk : k < js.length) :
+    (Spectral.synth fs bw next comps js)[k]'(by rw [C17_length]; exact hk) =
+      Spectral.ampAt (Spectral.pick next comps 0) bw (1 / fs * js[k]) := by
+  simp [Spectral.synth]
+
+/-- with the sample indices `0, 1, …, n-1` the times are `k / fs` -/
+theorem C17_entry_range (fs bw : ℝ) (next : ℕ) (comps : List (ℝ × ℝ × ℝ)) (n k : ℕ) (hk : k < n) :
+    (Spectral.synth fs bw next comps ((List.range n).map (fun j : ℕ => (j : ℝ))))[k]'(by
+        rw [C17_length]; simpa using hk) =
+      Spectral.ampAt (Spectral.pick next comps 0) bw ((k : ℝ) / fs) := by
+  simp [Spectral.synth]
+  congr 1; ring
+
+/-- the series never exceeds the sum of its component amplitudes -/
+theorem C17_bound (comps : List (ℝ × ℝ × ℝ)) (bw t : ℝ) :
+    |Spectral.ampAt comps bw t| ≤ (comps.map (fun c => Real.sqrt (2 * c.2.1 * bw))).sum := by
+  rw [ampAt_eq_sum]
+  induction comps with
+  | nil => simp
+  | cons c l ih =>
+    simp only [List.map_cons, List.sum_cons]
+    refine (abs_add_le _ _).trans (add_le_add ?_ ih)
+    rw [abs_mul, abs_of_nonneg (Real.sqrt_nonneg _)]
+    calc Real.sqrt (2 * c.2.1 * bw) * |Real.sin (2 * Real.pi * c.1 * t + c.2.2)|
+        ≤ Real.sqrt (2 * c.2.1 * bw) * 1 :=
+          mul_le_mul_of_nonneg_left (Real.abs_sin_le_one _) (Real.sqrt_nonneg _)
+      _ = _ := mul_one _
+
+/-! ## roots of unity -/
+
+open Complex in
+/-- the geometric sum of an `n`-th root of unity: `n` on multiples of `n`, `0` otherwise -/
+theorem expsum (n : ℕ) (hn : 0 < n) (p : ℤ) :
+    ∑ k ∈ range n, Complex.exp (2 * Real.pi * I * p * k / n) =
+      if (n : ℤ) ∣ p then (n : ℂ) else 0 := by
+  have hn0 : (n : ℂ) ≠ 0 := by exact_mod_cast hn.ne'
+  set ζ : ℂ := Complex.exp (2 * Real.pi * I * p / n) with hζ
+  have hpow : ∀ k : ℕ, Complex.exp (2 * Real.pi * I * p * k / n) = ζ ^ k := by
+    intro k
+    rw [hζ, ← Complex.exp_nat_mul]; congr 1; ring
+  simp only [hpow]
+  split_ifs with hdiv
+  · obtain ⟨q, rfl⟩ := hdiv
+    have : ζ = 1 := by
+      rw [hζ]
+      have : 2 * Real.pi * I * ((n * q : ℤ) : ℂ) / n = q * (2 * Real.pi * I) := by
+        push_cast; field_simp
+      rw [this, Complex.exp_int_mul_two_pi_mul_I]
+    simp [this]
+  · have hne : ζ ≠ 1 := by
+      intro h
+      rw [hζ, Complex.exp_eq_one_iff] at h
+      obtain ⟨q, hq⟩ := h
+      apply hdiv
+      refine ⟨q, ?_⟩
+      have h2 : (2 * Real.pi * I : ℂ) ≠ 0 := by
+        simp [Real.pi_ne_zero, Complex.I_ne_zero]
+      have : (p : ℂ) = n * q := by
+        field_simp at hq
+        exact hq
+      exact_mod_cast this
+    have hone : ζ ^ n = 1 := by
+      rw [hζ, ← Complex.exp_nat_mul]
+      have : (n : ℂ) * (2 * Real.pi * I * p / n) = p * (2 * Real.pi * I) := by field_simp
+      rw [this, Complex.exp_int_mul_two_pi_mul_I]
+    rw [geom_sum_eq hne, hone]; simp
+
+/-- `∑_{k<n} cos(2π p k / n + θ)` vanishes unless `n ∣ p` -/
+theorem cossum (n : ℕ) (hn : 0 < n) (p : ℤ) (θ : ℝ) :
+    ∑ k ∈ range n, Real.cos (2 * Real.pi * p * k / n + θ) =
+      if (n : ℤ) ∣ p then (n : ℝ) * Real.cos θ else 0 := by
+  have h1 : ∀ k : ℕ, Real.cos (2 * Real.pi * p * k / n + θ) =
+      (Complex.exp (θ * Complex.I) * Complex.exp (2 * Real.pi * Complex.I * p * k / n)).re := by
+    intro k
+    rw [← Complex.exp_ofReal_mul_I_re, ← Complex.exp_add]
+    congr 2; push_cast; ring
+  simp only [h1]
+  rw [← Complex.re_sum, ← Finset.mul_sum, expsum n hn p]
+  split_ifs
+  · rw [← Complex.ofReal_natCast, Complex.re_mul_ofReal, Complex.exp_ofReal_mul_I_re, mul_comm]
+  · simp
+
+/-- product of two sampled sinusoids with integer bin numbers, summed over one record -/
+theorem sinsin_sum (n : ℕ) (hn : 0 < n) (p q : ℤ) (α β : ℝ) :
+    ∑ k ∈ range n, Real.sin (2 * Real.pi * p * k / n + α) * Real.sin (2 * Real.pi * q * k / n + β) =
+      ((if (n : ℤ) ∣ p - q then (n : ℝ) * Real.cos (α - β) else 0) -
+        (if (n : ℤ) ∣ p + q then (n : ℝ) * Real.cos (α + β) else 0)) / 2 := by
+  rw [← cossum n hn (p - q) (α - β), ← cossum n hn (p + q) (α + β), ← Finset.sum_sub_distrib,
+    Finset.sum_div]
+  refine Finset.sum_congr rfl fun k _ => ?_
+  have e1 : 2 * Real.pi * ((p - q : ℤ) : ℝ) * k / n + (α - β) =
+      (2 * Real.pi * p * k / n + α) - (2 * Real.pi * q * k / n + β) := by push_cast; ring
+  have e2 : 2 * Real.pi * ((p + q : ℤ) : ℝ) * k / n + (α + β) =
+      (2 * Real.pi * p * k / n + α) + (2 * Real.pi * q * k / n + β) := by push_cast; ring
+  rw [e1, e2]
+  generalize 2 * Real.pi * (p : ℝ) * k / n + α = A
+  generalize 2 * Real.pi * (q : ℝ) * k / n + β = B
+  rw [Real.cos_sub, Real.cos_add]; ring
+
+/-- two bins strictly between DC and Nyquist: the sum frequency is never a multiple of `n` -/
+theorem not_dvd_add {n a b : ℕ} (ha : 0 < a) (ha' : 2 * a < n) (hb' : 2 * b < n) :
+    ¬ (n : ℤ) ∣ (a : ℤ) + (b : ℤ) := by
+  intro h
+  have h' : (n : ℤ) ∣ ((a + b : ℕ) : ℤ) := by exact_mod_cast h
+  rw [Int.natCast_dvd_natCast] at h'
+  have := Nat.le_of_dvd (by omega) h'
+  omega
+
+/-- … and the difference frequency only when the bins coincide -/
+theorem dvd_sub_iff {n a b : ℕ} (ha' : 2 * a < n) (hb' : 2 * b < n) :
+    (n : ℤ) ∣ (a : ℤ) - (b : ℤ) ↔ a = b := by
+  constructor
+  · intro h
+    by_contra hne
+    have h0 : (a : ℤ) - b ≠ 0 := by omega
+    have := Int.le_of_dvd (abs_pos.mpr h0) ((dvd_abs _ _).mpr h)
+    have hlt : |(a : ℤ) - b| < n := abs_lt.mpr ⟨by omega, by omega⟩
+    omega
+  · rintro rfl; simp
+
+/-! ## 4: orthogonality / energy -/
+
+section energy
+variable {ι : Type*} [Fintype ι]
+
+/-- the series of item 4 at sample `k` of a record of `n` -/
+noncomputable def binSeries (n : ℕ) (m : ι → ℕ) (a φ : ι → ℝ) (k : ℕ) : ℝ :=
+  ∑ i, a i * Real.sin (2 * Real.pi * (m i) * k / n + φ i)
+
+theorem C17_mean_square (n : ℕ) (hn : 0 < n) (m : ι → ℕ) (a φ : ι → ℝ)
+    (hm0 : ∀ i, 0 < m i) (hmN : ∀ i, 2 * m i < n) (hinj : Function.Injective m) :
+    (1 / (n : ℝ)) * ∑ k ∈ range n,
+        (∑ i, a i * Real.sin (2 * Real.pi * (m i) * k / n + φ i)) ^ 2 =
+      ∑ i, (a i) ^ 2 / 2 := by
+  classical
+  have hn0 : (n : ℝ) ≠ 0 := by exact_mod_cast hn.ne'
+  have hpair : ∀ i j, ∑ k ∈ range n,
+      (a i * Real.sin (2 * Real.pi * (m i) * k / n + φ i)) *
+        (a j * Real.sin (2 * Real.pi * (m j) * k / n + φ j)) =
+      if i = j then (n : ℝ) * ((a i) ^ 2 / 2) else 0 := by
+    intro i j
+    have := sinsin_sum n hn (m i) (m j) (φ i) (φ j)
+    simp only [Int.cast_natCast] at this
+    have hadd : ¬ (n : ℤ) ∣ (m i : ℤ) + (m j : ℤ) := not_dvd_add (hm0 i) (hmN i) (hmN j)
+    have hsub : (n : ℤ) ∣ (m i : ℤ) - (m j : ℤ) ↔ i = j :=
+      (dvd_sub_iff (hmN i) (hmN j)).trans hinj.eq_iff
+    calc _ = a i * a j * ∑ k ∈ range n, Real.sin (2 * Real.pi * (m i) * k / n + φ i) *
+          Real.sin (2 * Real.pi * (m j) * k / n + φ j) := by
+          rw [Finset.mul_sum]; exact Finset.sum_congr rfl fun k _ => by ring
+      _ = _ := by
+          rw [this, if_neg hadd]
+          by_cases hij : i = j
+          · subst hij; simp; ring
+          · rw [if_neg (mt hsub.mp hij), if_neg hij]; ring
+  have hsq : ∀ k : ℕ, (∑ i, a i * Real.sin (2 * Real.pi * (m i) * k / n + φ i)) ^ 2 =
+      ∑ i, ∑ j, (a i * Real.sin (2 * Real.pi * (m i) * k / n + φ i)) *
+        (a j * Real.sin (2 * Real.pi * (m j) * k / n + φ j)) := by
+    intro k; rw [sq, Finset.sum_mul_sum]
+  simp only [hsq]
+  rw [Finset.sum_comm]
+  have : ∀ i, ∑ k ∈ range n, ∑ j, (a i * Real.sin (2 * Real.pi * (m i) * k / n + φ i)) *
+        (a j * Real.sin (2 * Real.pi * (m j) * k / n + φ j)) = (n : ℝ) * ((a i) ^ 2 / 2) := by
+    intro i
+    rw [Finset.sum_comm]
+    simp only [hpair, Finset.sum_ite_eq, Finset.mem_univ, if_true]
+  simp only [this]
+  rw [← Finset.mul_sum, ← mul_assoc, one_div, inv_mul_cancel₀ hn0, one_mul]
+
+/-- with the synthesiser's amplitudes `√(2 S_i bw)` the mean square is the spectrum's energy `Σ S_i bw` -/
+theorem C17_mean_square_spectrum (n : ℕ) (hn : 0 < n) (m : ι → ℕ) (S φ : ι → ℝ) (bw : ℝ)
+    (hS : ∀ i, 0 ≤ S i) (hbw : 0 ≤ bw)
+    (hm0 : ∀ i, 0 < m i) (hmN : ∀ i, 2 * m i < n) (hinj : Function.Injective m) :
+    (1 / (n : ℝ)) * ∑ k ∈ range n,
+        (∑ i, Real.sqrt (2 * S i * bw) * Real.sin (2 * Real.pi * (m i) * k / n + φ i)) ^ 2 =
+      ∑ i, S i * bw := by
+  rw [C17_mean_square n hn m (fun i => Real.sqrt (2 * S i * bw)) φ hm0 hmN hinj]
+  refine Finset.sum_congr rfl fun i _ => ?_
+  rw [Real.sq_sqrt (by have := hS i; positivity)]; ring
+
+/-- the same for the synthesiser itself: components `(m_i, S_i, φ_i)` at the frequencies
+`m_i · fs / n`, sampled at the times `k / fs` -/
+theorem C17_mean_square_synth (fs bw : ℝ) (hfs : fs ≠ 0) (hbw : 0 ≤ bw) (n : ℕ) (hn : 0 < n)
+    (l : List (ℕ × ℝ × ℝ)) (hS : ∀ c ∈ l, 0 ≤ c.2.1) (hm0 : ∀ c ∈ l, 0 < c.1)
+    (hmN : ∀ c ∈ l, 2 * c.1 < n) (hnodup : (l.map Prod.fst).Nodup) :
+    (1 / (n : ℝ)) * ∑ k ∈ range n,
+      (Spectral.ampAt (l.map fun c => ((c.1 : ℝ) * fs / n, c.2.1, c.2.2)) bw ((k : ℝ) / fs)) ^ 2 =
+      (l.map fun c => c.2.1 * bw).sum := by
+  have hn0 : (n : ℝ) ≠ 0 := by exact_mod_cast hn.ne'
+  have hamp : ∀ k : ℕ,
+      Spectral.ampAt (l.map fun c => ((c.1 : ℝ) * fs / n, c.2.1, c.2.2)) bw ((k : ℝ) / fs) =
+      ∑ i : Fin l.length, Real.sqrt (2 * l[i.1].2.1 * bw) *
+        Real.sin (2 * Real.pi * (l[i.1].1 : ℕ) * k / n + l[i.1].2.2) := by
+    intro k
+    rw [ampAt_eq_sum, List.map_map, ← Fin.sum_univ_fun_getElem]
+    refine Finset.sum_congr rfl fun i _ => ?_
+    simp only [Function.comp]
+    congr 2; field_simp
+  simp only [hamp]
+  rw [C17_mean_square_spectrum n hn (fun i : Fin l.length => l[i.1].1) (fun i => l[i.1].2.1)
+    (fun i => l[i.1].2.2) bw (fun i => hS _ (List.getElem_mem _)) hbw
+    (fun i => hm0 _ (List.getElem_mem _)) (fun i => hmN _ (List.getElem_mem _)) ?_,
+    Fin.sum_univ_fun_getElem l (fun c => c.2.1 * bw)]
+  intro i j hij
+  apply Fin.ext
+  have hi : i.1 < (l.map Prod.fst).length := by simp
+  have hj : j.1 < (l.map Prod.fst).length := by simp
+  refine (hnodup.getElem_inj_iff (hi := hi) (hj := hj)).mp ?_
+  simpa using hij
+
+end energy
+
+/-- non-vacuity: `n = 8`, one component in bin `1` -/
+example (a φ : ℝ) :
+    (1 / ((8 : ℕ) : ℝ)) * ∑ k ∈ range 8,
+        (∑ _i : Unit, a * Real.sin (2 * Real.pi * ((1 : ℕ) : ℝ) * k / (8 : ℕ) + φ)) ^ 2 =
+      ∑ _i : Unit, a ^ 2 / 2 :=
+  C17_mean_square 8 (by norm_num) (fun _ : Unit => 1) (fun _ => a) (fun _ => φ)
+    (fun _ => by norm_num) (fun _ => by norm_num) (fun _ _ _ => rfl)
+
+/-! ## 5: the periodogram at the component bins -/
+
+/-- DFT coefficient `X_p = Σ_{k<n} x_k e^{-2πi p k / n}` -/
+noncomputable def dft (n : ℕ) (x : ℕ → ℝ) (p : ℕ) : ℂ :=
+  ∑ k ∈ range n, (x k : ℂ) * Complex.exp (-2 * Real.pi * Complex.I * p * k / n)
+
+/-- one-sided periodogram density at an interior bin (`0 < p`, `2 p < n`), sampling rate `fs` -/
+noncomputable def pgram (fs : ℝ) (n : ℕ) (x : ℕ → ℝ) (p : ℕ) : ℝ :=
+  2 * ‖dft n x p‖ ^ 2 / (fs * n)
+
+theorem dft_term (n : ℕ) (y : ℝ) (p k : ℕ) :
+    (y : ℂ) * Complex.exp (-2 * Real.pi * Complex.I * p * k / n) =
+      ((y * Real.cos (2 * Real.pi * p * k / n) : ℝ) : ℂ) +
+        ((-(y * Real.sin (2 * Real.pi * p * k / n)) : ℝ) : ℂ) * Complex.I := by
+  have : (-2 * Real.pi * Complex.I * p * k / n : ℂ) = ((-(2 * Real.pi * p * k / n) : ℝ) : ℂ) * Complex.I := by
+    push_cast; ring
+  rw [this, Complex.exp_mul_I, ← Complex.ofReal_cos, ← Complex.ofReal_sin, Real.cos_neg, Real.sin_neg]
+  push_cast; ring
+
+theorem dft_re (n : ℕ) (x : ℕ → ℝ) (p : ℕ) :
+    (dft n x p).re = ∑ k ∈ range n, x k * Real.cos (2 * Real.pi * p * k / n) := by
+  unfold dft
+  rw [Complex.re_sum]
+  refine Finset.sum_congr rfl fun k _ => ?_
+  rw [dft_term]
+  simp only [Complex.add_re, Complex.ofReal_re, Complex.mul_re, Complex.ofReal_im, Complex.I_re,
+    Complex.I_im, mul_zero, zero_mul, sub_zero, add_zero]
+
+theorem dft_im (n : ℕ) (x : ℕ → ℝ) (p : ℕ) :
+    (dft n x p).im = -∑ k ∈ range n, x k * Real.sin (2 * Real.pi * p * k / n) := by
+  unfold dft
+  rw [Complex.im_sum, ← Finset.sum_neg_distrib]
+  refine Finset.sum_congr rfl fun k _ => ?_
+  rw [dft_term]
+  simp only [Complex.add_im, Complex.ofReal_re, Complex.mul_im, Complex.ofReal_im, Complex.I_re,
+    Complex.I_im, mul_zero, mul_one, zero_add, add_zero]
+
+theorem dft_norm_sq (n : ℕ) (x : ℕ → ℝ) (p : ℕ) :
+    ‖dft n x p‖ ^ 2 = (∑ k ∈ range n, x k * Real.cos (2 * Real.pi * p * k / n)) ^ 2 +
+      (∑ k ∈ range n, x k * Real.sin (2 * Real.pi * p * k / n)) ^ 2 := by
+  rw [Complex.sq_norm, Complex.normSq_apply, dft_re, dft_im]; ring
+
+section bins
+variable {ι : Type*} [Fintype ι]
+
+/-- projection of the series on a sinusoid of bin `m j` with arbitrary phase `β` -/
+theorem bin_proj (n : ℕ) (hn : 0 < n) (m : ι → ℕ) (a φ : ι → ℝ)
+    (hm0 : ∀ i, 0 < m i) (hmN : ∀ i, 2 * m i < n) (hinj : Function.Injective m) (j : ι) (β : ℝ) :
+    ∑ k ∈ range n, binSeries n m a φ k * Real.sin (2 * Real.pi * (m j) * k / n + β) =
+      n * a j * Real.cos (φ j - β) / 2 := by
+  classical
+  unfold binSeries
+  simp only [Finset.sum_mul]
+  rw [Finset.sum_comm]
+  have : ∀ i, ∑ k ∈ range n, a i * Real.sin (2 * Real.pi * (m i) * k / n + φ i) *
+      Real.sin (2 * Real.pi * (m j) * k / n + β) =
+      if i = j then (n : ℝ) * a j * Real.cos (φ j - β) / 2 else 0 := by
+    intro i
+    have := sinsin_sum n hn (m i) (m j) (φ i) β
+    simp only [Int.cast_natCast] at this
+    have hadd : ¬ (n : ℤ) ∣ (m i : ℤ) + (m j : ℤ) := not_dvd_add (hm0 i) (hmN i) (hmN j)
+    have hsub : (n : ℤ) ∣ (m i : ℤ) - (m j : ℤ) ↔ i = j :=
+      (dvd_sub_iff (hmN i) (hmN j)).trans hinj.eq_iff
+    calc _ = a i * ∑ k ∈ range n, Real.sin (2 * Real.pi * (m i) * k / n + φ i) *
+          Real.sin (2 * Real.pi * (m j) * k / n + β) := by
+          rw [Finset.mul_sum]; exact Finset.sum_congr rfl fun k _ => by ring
+      _ = _ := by
+          rw [this, if_neg hadd]
+          by_cases hij : i = j
+          · subst hij; simp; ring
+          · rw [if_neg (mt hsub.mp hij), if_neg hij]; ring
+  simp only [this, Finset.sum_ite_eq', Finset.mem_univ, if_true]
+
+/-- the DFT of the series at a component bin has modulus `n a_j / 2` -/
+theorem C17_dft_bin (n : ℕ) (hn : 0 < n) (m : ι → ℕ) (a φ : ι → ℝ)
+    (hm0 : ∀ i, 0 < m i) (hmN : ∀ i, 2 * m i < n) (hinj : Function.Injective m) (j : ι) :
+    ‖dft n (binSeries n m a φ) (m j)‖ ^ 2 = (n * a j / 2) ^ 2 := by
+  have hs := bin_proj n hn m a φ hm0 hmN hinj j 0
+  have hc := bin_proj n hn m a φ hm0 hmN hinj j (Real.pi / 2)
+  simp only [add_zero, sub_zero] at hs
+  simp only [Real.sin_add_pi_div_two, Real.cos_sub_pi_div_two] at hc
+  rw [dft_norm_sq, hs, hc]
+  have := Real.sin_sq_add_cos_sq (φ j)
+  linear_combination ((n : ℝ) * a j / 2) ^ 2 * this
+
+/-- periodogram density at a component bin times the bin width `fs / n` is the component's energy -/
+theorem C17_periodogram_bin (fs : ℝ) (hfs : 0 < fs) (n : ℕ) (hn : 0 < n) (m : ι → ℕ) (a φ : ι → ℝ)
+    (hm0 : ∀ i, 0 < m i) (hmN : ∀ i, 2 * m i < n) (hinj : Function.Injective m) (j : ι) :
+    pgram fs n (binSeries n m a φ) (m j) * (fs / n) = (a j) ^ 2 / 2 := by
+  have hn0 : (n : ℝ) ≠ 0 := by exact_mod_cast hn.ne'
+  unfold pgram
+  rw [C17_dft_bin n hn m a φ hm0 hmN hinj j]
+  field_simp
+
+/-- with the synthesiser's amplitudes: `P(m_j) · fs/n = S_j · bw`; in particular `P(m_j) = S_j`
+when the bandwidth is the bin width -/
+theorem C17_periodogram_bin_spectrum (fs : ℝ) (hfs : 0 < fs) (n : ℕ) (hn : 0 < n) (m : ι → ℕ)
+    (S φ : ι → ℝ) (bw : ℝ) (hS : ∀ i, 0 ≤ S i) (hbw : 0 ≤ bw)
+    (hm0 : ∀ i, 0 < m i) (hmN : ∀ i, 2 * m i < n) (hinj : Function.Injective m) (j : ι) :
+    pgram fs n (binSeries n m (fun i => Real.sqrt (2 * S i * bw)) φ) (m j) * (fs / n) = S j * bw ∧
+    (bw = fs / n → pgram fs n (binSeries n m (fun i => Real.sqrt (2 * S i * bw)) φ) (m j) = S j) := by
+  have hn0 : (0 : ℝ) < n := by exact_mod_cast hn
+  have h := C17_periodogram_bin fs hfs n hn m (fun i => Real.sqrt (2 * S i * bw)) φ hm0 hmN hinj j
+  rw [Real.sq_sqrt (by have := hS j; positivity)] at h
+  have h' : pgram fs n (binSeries n m (fun i => Real.sqrt (2 * S i * bw)) φ) (m j) * (fs / n) =
+      S j * bw := by rw [h]; ring
+  refine ⟨h', fun hb => ?_⟩
+  have hpos : 0 < fs / n := div_pos hfs hn0
+  subst hb
+  exact mul_right_cancel₀ hpos.ne' h'
+
+end bins
+
+/-- non-vacuity: `n = 8`, two components in bins `1` and `3`, periodogram at bin `3` -/
+example (fs : ℝ) (hfs : 0 < fs) (a φ : Fin 2 → ℝ) :
+    pgram fs 8 (binSeries 8 (fun i : Fin 2 => 2 * i.1 + 1) a φ) 3 * (fs / (8 : ℕ)) = (a 1) ^ 2 / 2 :=
+  C17_periodogram_bin fs hfs 8 (by norm_num) (fun i : Fin 2 => 2 * i.1 + 1) a φ
+    (fun i => by omega) (fun i => by omega) (fun i j h => by apply Fin.ext; simpa using h) 1
+
+/-! ## 6: Parseval for the mean-removed periodogram -/
+
+theorem dvd_sub_iff_lt {n a b : ℕ} (ha : a < n) (hb : b < n) :
+    (n : ℤ) ∣ (a : ℤ) - (b : ℤ) ↔ a = b := by
+  constructor
+  · intro h
+    by_contra hne
+    have h0 : (a : ℤ) - b ≠ 0 := by omega
+    have := Int.le_of_dvd (abs_pos.mpr h0) ((dvd_abs _ _).mpr h)
+    have hlt : |(a : ℤ) - b| < n := abs_lt.mpr ⟨by omega, by omega⟩
+    omega
+  · rintro rfl; simp
+
+/-- Parseval for the length-`n` DFT of a real series -/
+theorem parseval (n : ℕ) (hn : 0 < n) (x : ℕ → ℝ) :
+    ∑ p ∈ range n, ‖dft n x p‖ ^ 2 = n * ∑ k ∈ range n, (x k) ^ 2 := by
+  have h1 : ∀ p : ℕ, ‖dft n x p‖ ^ 2 = ∑ k ∈ range n, ∑ l ∈ range n,
+      x k * x l * Real.cos (2 * Real.pi * (((k : ℤ) - (l : ℤ) : ℤ) : ℝ) * p / n + 0) := by
+    intro p
+    rw [dft_norm_sq, sq, sq, Finset.sum_mul_sum, Finset.sum_mul_sum, ← Finset.sum_add_distrib]
+    refine Finset.sum_congr rfl fun k _ => ?_
+    rw [← Finset.sum_add_distrib]
+    refine Finset.sum_congr rfl fun l _ => ?_
+    have : 2 * Real.pi * (((k : ℤ) - (l : ℤ) : ℤ) : ℝ) * p / n + 0 =
+        2 * Real.pi * p * k / n - 2 * Real.pi * p * l / n := by push_cast; ring
+    rw [this, Real.cos_sub]; ring
+  simp only [h1]
+  rw [Finset.sum_comm, Finset.mul_sum]
+  refine Finset.sum_congr rfl fun k hk => ?_
+  rw [Finset.sum_comm]
+  have h2 : ∀ l ∈ range n, ∑ p ∈ range n,
+      x k * x l * Real.cos (2 * Real.pi * (((k : ℤ) - (l : ℤ) : ℤ) : ℝ) * p / n + 0) =
+      if k = l then (n : ℝ) * (x k) ^ 2 else 0 := by
+    intro l hl
+    have hd := dvd_sub_iff_lt (mem_range.mp hk) (mem_range.mp hl)
+    rw [← Finset.mul_sum, cossum n hn _ 0]
+    by_cases h : k = l
+    · rw [if_pos (hd.mpr h), if_pos h]; subst h; rw [Real.cos_zero]; ring
+    · rw [if_neg (mt hd.mp h), if_neg h, mul_zero]
+  rw [Finset.sum_congr rfl h2, Finset.sum_ite_eq, if_pos hk]
+
+/-- sample mean of the first `n` terms -/
+noncomputable def mean (n : ℕ) (x : ℕ → ℝ) : ℝ := (∑ k ∈ range n, x k) / n
+/-- the mean-removed series -/
+noncomputable def demean (n : ℕ) (x : ℕ → ℝ) : ℕ → ℝ := fun k => x k - mean n x
+/-- population variance -/
+noncomputable def variance (n : ℕ) (x : ℕ → ℝ) : ℝ := (1 / (n : ℝ)) * ∑ k ∈ range n, (x k - mean n x) ^ 2
+
+/-- one-sided density of the mean-removed series on the bins `0 ≤ p ≤ n/2`: interior bins doubled,
+DC and (for even `n`) Nyquist not -/
+noncomputable def psd1 (fs : ℝ) (n : ℕ) (x : ℕ → ℝ) (p : ℕ) : ℝ :=
+  (if p = 0 ∨ 2 * p = n then 1 else 2) * ‖dft n (demean n x) p‖ ^ 2 / (fs * n)
+
+/-- area of the one-sided density over the frequency grid `p · fs / n`, `0 ≤ p ≤ n/2` -/
+noncomputable def psdArea (fs : ℝ) (n : ℕ) (x : ℕ → ℝ) : ℝ :=
+  ∑ p ∈ range (n / 2 + 1), psd1 fs n x p * (fs / n)
+
+/-- on interior bins `psd1` is the periodogram `pgram` of item 5 of the mean-removed series -/
+theorem psd1_interior (fs : ℝ) (n : ℕ) (x : ℕ → ℝ) (p : ℕ) (hp : 0 < p) (hpn : 2 * p < n) :
+    psd1 fs n x p = pgram fs n (demean n x) p := by
+  unfold psd1 pgram
+  rw [if_neg (by omega)]
+
+theorem C17_parseval (n : ℕ) (hn : 2 ≤ n) (x : ℕ → ℝ) :
+    ∑ p ∈ range n, ‖dft n (demean n x) p‖ ^ 2 = n * ∑ k ∈ range n, (x k - mean n x) ^ 2 :=
+  parseval n (by omega) (demean n x)
+
+/-- the DC coefficient of the mean-removed series vanishes -/
+theorem C17_dc_zero (n : ℕ) (hn : 0 < n) (x : ℕ → ℝ) : dft n (demean n x) 0 = 0 := by
+  have hn0 : (n : ℝ) ≠ 0 := by exact_mod_cast hn.ne'
+  have : ‖dft n (demean n x) 0‖ ^ 2 = 0 := by
+    rw [dft_norm_sq]
+    simp only [Nat.cast_zero, mul_zero, zero_mul, zero_div, Real.cos_zero, Real.sin_zero, mul_one,
+      Finset.sum_const_zero]
+    unfold demean mean
+    rw [Finset.sum_sub_distrib, Finset.sum_const, card_range, nsmul_eq_mul]
+    field_simp
+    ring
+  simpa using this
+
+/-- conjugate symmetry of the DFT of a real series, in modulus -/
+theorem dft_reflect (n : ℕ) (x : ℕ → ℝ) (p : ℕ) (hp : p ≤ n) (hn : 0 < n) :
+    ‖dft n x (n - p)‖ ^ 2 = ‖dft n x p‖ ^ 2 := by
+  have hn0 : (n : ℝ) ≠ 0 := by exact_mod_cast hn.ne'
+  have harg : ∀ k : ℕ, 2 * Real.pi * ((n - p : ℕ) : ℝ) * k / n =
+      (k : ℝ) * (2 * Real.pi) - 2 * Real.pi * p * k / n := by
+    intro k; rw [Nat.cast_sub hp]; field_simp
+  rw [dft_norm_sq, dft_norm_sq]
+  simp only [harg, Real.cos_nat_mul_two_pi_sub, Real.sin_nat_mul_two_pi_sub, mul_neg,
+    Finset.sum_neg_distrib, neg_sq]
+
+/-- folding a symmetric two-sided sum onto the bins `0 … n/2` -/
+theorem fold_sum (n : ℕ) (hn : 0 < n) (f : ℕ → ℝ) (hsymm : ∀ p, 0 < p → p < n → f (n - p) = f p) :
+    ∑ p ∈ range (n / 2 + 1), (if p = 0 ∨ 2 * p = n then 1 else 2) * f p = ∑ p ∈ range n, f p := by
+  have hset : range (n / 2 + 1) = (range n).filter (fun p => 2 * p ≤ n) := by
+    ext p; simp only [mem_range, mem_filter]; omega
+  have hB : ∑ p ∈ (range n).filter (fun p => ¬ 2 * p ≤ n), f p =
+      ∑ p ∈ (range n).filter (fun p => 0 < p ∧ 2 * p < n), f p := by
+    refine Finset.sum_nbij' (fun p => n - p) (fun p => n - p) ?_ ?_ ?_ ?_ ?_
+    · intro p hp; simp only [mem_filter, mem_range] at hp ⊢; omega
+    · intro p hp; simp only [mem_filter, mem_range] at hp ⊢; omega
+    · intro p hp; simp only [mem_filter, mem_range] at hp ⊢; omega
+    · intro p hp; simp only [mem_filter, mem_range] at hp ⊢; omega
+    · intro p hp; simp only [mem_filter, mem_range] at hp
+      have := hsymm (n - p) (by omega) (by omega)
+      rw [← this]; congr 1; omega
+  rw [← Finset.sum_filter_add_sum_filter_not (range n) (fun p => 2 * p ≤ n) f, hB, hset,
+    Finset.sum_filter, Finset.sum_filter, Finset.sum_filter, ← Finset.sum_add_distrib]
+  refine Finset.sum_congr rfl fun p hp => ?_
+  have hp' := mem_range.mp hp
+  by_cases h1 : 2 * p ≤ n
+  · by_cases h2 : p = 0 ∨ 2 * p = n
+    · rw [if_pos h1, if_pos h2, if_pos h1, if_neg (by omega)]; ring
+    · rw [if_pos h1, if_neg h2, if_pos h1, if_pos (by omega)]; ring
+  · rw [if_neg h1, if_neg h1, if_neg (by omega)]; ring
+
+/-- area of the one-sided density = population variance -/
+theorem C17_area_variance (fs : ℝ) (hfs : 0 < fs) (n : ℕ) (hn : 2 ≤ n) (x : ℕ → ℝ) :
+    psdArea fs n x = variance n x := by
+  have hn' : 0 < n := by omega
+  have hn0 : (n : ℝ) ≠ 0 := by exact_mod_cast hn'.ne'
+  have hterm : ∀ p, psd1 fs n x p * (fs / n) =
+      (1 / (n : ℝ) ^ 2) * ((if p = 0 ∨ 2 * p = n then 1 else 2) * ‖dft n (demean n x) p‖ ^ 2) := by
+    intro p; unfold psd1; field_simp
+  unfold psdArea variance
+  simp only [hterm]
+  rw [← Finset.mul_sum,
+    fold_sum n hn' (fun p => ‖dft n (demean n x) p‖ ^ 2)
+      (fun p _ hp => dft_reflect n (demean n x) p hp.le hn'),
+    C17_parseval n hn x]
+  field_simp
+
+/-- scaling the series by `c` scales the density by `c²` -/
+theorem C17_scaling (fs : ℝ) (n : ℕ) (x : ℕ → ℝ) (c : ℝ) (p : ℕ) :
+    psd1 fs n (fun k => c * x k) p = c ^ 2 * psd1 fs n x p := by
+  have hmean : mean n (fun k => c * x k) = c * mean n x := by
+    unfold mean; rw [← Finset.mul_sum]; ring
+  have hde : demean n (fun k => c * x k) = fun k => c * demean n x k := by
+    funext k; unfold demean; rw [hmean]; ring
+  have hdft : dft n (fun k => c * demean n x k) p = (c : ℂ) * dft n (demean n x) p := by
+    unfold dft; rw [Finset.mul_sum]
+    refine Finset.sum_congr rfl fun k _ => ?_
+    push_cast; ring
+  unfold psd1
+  rw [hde, hdft, norm_mul, mul_pow, Complex.norm_real, Real.norm_eq_abs, sq_abs]
+  ring
+
+/-- … and hence the area by `c²` -/
+theorem C17_scaling_area (fs : ℝ) (n : ℕ) (x : ℕ → ℝ) (c : ℝ) :
+    psdArea fs n (fun k => c * x k) = c ^ 2 * psdArea fs n x := by
+  unfold psdArea
+  rw [Finset.mul_sum]
+  refine Finset.sum_congr rfl fun p _ => ?_
+  rw [C17_scaling]; ring
+
+/-- the area does not depend on the sampling rate used to label the frequency axis -/
+theorem C17_fs_invariance (fs fs' : ℝ) (hfs : fs ≠ 0) (hfs' : fs' ≠ 0) (n : ℕ) (x : ℕ → ℝ) :
+    psdArea fs n x = psdArea fs' n x := by
+  unfold psdArea
+  refine Finset.sum_congr rfl fun p _ => ?_
+  unfold psd1
+  by_cases hn : (n : ℝ) = 0
+  · simp [hn]
+  · field_simp
+
+/-- Parseval, stated for a series indexed by `Fin n` with its DFT written out; holds for any
+constant `μ` removed, in particular the mean `(∑ k, x k) / n` -/
+theorem C17_parseval_fin (n : ℕ) (hn : 2 ≤ n) (x : Fin n → ℝ) (μ : ℝ) :
+    ∑ p : Fin n, ‖∑ k : Fin n, ((x k - μ : ℝ) : ℂ) *
+        Complex.exp (-2 * Real.pi * Complex.I * (p : ℕ) * (k : ℕ) / n)‖ ^ 2 =
+      n * ∑ k : Fin n, (x k - μ) ^ 2 := by
+  have h := parseval n (by omega) (fun k => if h : k < n then x ⟨k, h⟩ - μ else 0)
+  rw [Finset.sum_range, Finset.sum_range] at h
+  simp only [dft, Finset.sum_range, Fin.is_lt, dite_true, Fin.eta] at h
+  exact h
+
+end FF
